@@ -92,3 +92,137 @@ Definition e_c16_breaks (v : val) : val :=
       end
   | _ => bad_input
   end.
+
+(* ==== complete tables (Model/Reports.v) and the closed form of by_gene (Spec/Genes.v) ============ *)
+From CNV Require Import Base.QNum Model.Reports Spec.Genes.
+From CNV Require Model.Center Model.Sex.
+
+Definition vCell (c : cell) : val :=
+  match c with CS s => VS s | CZ z => VZ z | CQ (Some q) => VQ (Qred q) | CQ None => VNone end.
+Definition vTable (t : table) : val :=
+  VL [VL (map VS (fst t)); VL (map (fun r => VL (map vCell r)) (snd t))].
+Definition vOptB (o : option bool) : val := match o with Some b => VB b | None => VNone end.
+
+(* build: None | name; an unsupported name is an assertion failure of the code *)
+Definition c16_getBuild (v : val) : option (option (option Center.parb)) :=
+  match v with
+  | VNone => Some (Some None)
+  | VS s => match Center.resolve_build s with Some p => Some (Some (Some p)) | None => Some None end
+  | _ => None
+  end.
+
+(* the G statistic arrives as a finite table *)
+Definition c16_mtable_eqb (a b : Sex.mtable) : bool :=
+  let '(a1, a2, a3, a4) := a in let '(b1, b2, b3, b4) := b in
+  ((a1 =? b1) && (a2 =? b2) && (a3 =? b3) && (a4 =? b4))%Z.
+Fixpoint c16_gstat_of (tbl : list (Sex.mtable * Q)) (k : Sex.mtable) : Q :=
+  match tbl with
+  | [] => (-1)%Q
+  | (k', s) :: t => if c16_mtable_eqb k' k then s else c16_gstat_of t k
+  end.
+Definition c16_getMtable (v : val) : option Sex.mtable :=
+  match v with
+  | VL [a; b; c; d] =>
+      match getZ a, getZ b, getZ c, getZ d with
+      | Some a', Some b', Some c', Some d' => Some (a', b', c', d')
+      | _, _, _, _ => None
+      end
+  | _ => None
+  end.
+Definition c16_getGstat (v : val) : option (list (Sex.mtable * Q)) := getList (getPair c16_getMtable getQ) v.
+
+Definition getSeg (v : val) : option seg :=
+  match v with
+  | VL [b; ex] =>
+      match getBin b, getList (getPair getS (getOpt getQ)) ex with
+      | Some b, Some ex => Some (mkSeg b ex)
+      | _, _ => None
+      end
+  | _ => None
+  end.
+Definition getSegTable (v : val) : option (list string * list seg) := getPair (getList getS) (getList getSeg) v.
+
+(* (ccols, rows, (scols, segs) | None, threshold | None, min_probes | None, skip_low | None, haploid_x_ref,
+    is_female | None, build | None, gstat table)
+   -> [columns; rows; sex used for the bins | None]  |  error *)
+Definition e_c16_genemetrics_full (v : val) : val :=
+  match v with
+  | VL [cc; rows; segs; th; mp; sl; hx; fem; bd; gs] =>
+      match getList getS cc, getBins rows, getOpt getSegTable segs, getOpt getQ th, getOpt getZ mp with
+      | Some cc, Some rows, Some segs, Some th, Some mp =>
+          match getOpt getB sl, getB hx, getOpt getB fem, c16_getBuild bd, c16_getGstat gs with
+          | Some sl, Some hx, Some fem, Some (Some bd), Some gs =>
+              let th := match th with Some t => t | None => GENEMETRICS_THRESHOLD end in
+              let mp := match mp with Some m => m | None => GENEMETRICS_MIN_PROBES end in
+              let sl := match sl with Some s => s | None => GENEMETRICS_SKIP_LOW end in
+              let o := mkOpts th mp sl hx fem bd in
+              match do_genemetrics_full (c16_gstat_of gs) cc rows segs o with
+              | Some t => VL [VL (map VS (fst t)); VL (map (fun r => VL (map vCell r)) (snd t));
+                              vOptB (female_for_bins (c16_gstat_of gs) o rows)]
+              | None => VErr "ZeroDivisionError"
+              end
+          | Some _, Some _, Some _, Some None, Some _ => VErr "Assertion"
+          | _, _, _, _, _ => bad_input
+          end
+      | _, _, _, _, _ => bad_input
+      end
+  | _ => bad_input
+  end.
+
+(* the summary function arrives as a finite table of (values, result) *)
+Fixpoint c16_eqQ_list (a b : list Q) : bool :=
+  match a, b with
+  | [], [] => true
+  | x :: a', y :: b' => Qeq_bool x y && c16_eqQ_list a' b'
+  | _, _ => false
+  end.
+Fixpoint c16_est_of (tbl : list (list Q * Q)) (l : list Q) : Q :=
+  match tbl with
+  | [] => (-12345)%Q
+  | (k, v) :: t => if c16_eqQ_list k l then v else c16_est_of t l
+  end.
+
+(* (ccols, ignore | None, squash_antitarget | None, rows, est table) -> [columns; rows] | error *)
+Definition e_c16_squash_full (v : val) : val :=
+  match v with
+  | VL [cc; ig; sa; rows; et] =>
+      match getList getS cc, getIgnore ig, getOpt getB sa, getBins rows,
+            getList (getPair (getList getQ) getQ) et with
+      | Some cc, Some ig, Some sa, Some rows, Some et =>
+          let sa := match sa with Some b => b | None => SQUASH_ANTITARGET end in
+          match squash_genes_full (c16_est_of et) cc ig sa rows with
+          | Some t => vTable t
+          | None => VErr "RuntimeError"
+          end
+      | _, _, _, _, _ => bad_input
+      end
+  | _ => bad_input
+  end.
+
+(* (rows, segments, min_probes | None) -> [columns; rows] *)
+Definition e_c16_breaks_table (v : val) : val :=
+  match v with
+  | VL [rows; segs; mp] =>
+      match getBins rows, getBins segs, getOpt getZ mp with
+      | Some rows, Some segs, Some mp =>
+          let mp := match mp with Some m => m | None => BREAKS_MIN_PROBES end in
+          vTable (do_breaks_table rows segs mp)
+      | _, _, _ => bad_input
+      end
+  | _ => bad_input
+  end.
+
+(* (ignore | None, rows of ONE chromosome) -> the closed form of Spec/Genes.v:
+   [[label; a; b] ...] position ranges, [times yielded per position] *)
+Definition e_c16_by_gene_ranges (v : val) : val :=
+  match v with
+  | VL [ig; rows] =>
+      match getIgnore ig, getBins rows with
+      | Some ig, Some rows =>
+          let rs := yielded_ranges (full_ignore ig) rows in
+          VL [VL (map (fun r => VL [VS (pr_label r); vNat (pr_a r); vNat (pr_b r)]) rs);
+              VL (map (fun i => vNat (times_yielded rs i)) (seq 0 (length rows)))]
+      | _, _ => bad_input
+      end
+  | _ => bad_input
+  end.
